@@ -2,6 +2,7 @@ package main
 
 import (
 	"fmt"
+	"go/types"
 	"strings"
 
 	"golang.org/x/tools/go/ssa"
@@ -103,13 +104,36 @@ func runC02(c *Ctx) {
 			}
 		}
 		// coinbase credits: each existing credit recorded and deleted
+		nCb := 0
 		for _, l := range loopsRangingOver(rb, "TxOut") {
 			if l.containsInstr(mayCallNamed("putRawUnminedCredit")) || !l.containsInstr(mayCallNamed("deleteRawCredit")) {
 				continue
 			}
 			bad := l.MustPassPerIteration(p, isCallNamed("deleteRawCredit"), nilEdgeOf("existsCredit"))
 			c.Check("C02-R3", "each-coinbase-credit-deleted", l.Header.Instrs[0].Pos(), bad == "", "a coinbase credit of a disconnected block is kept ("+bad+")")
+			// every output of the detached coinbase — not only the wallet's own credits — is recorded for the sweep of
+			// unconfirmed spenders: whatever spends any of them depends on a coinbase that no longer exists (F46)
+			isOutPointAppend := func(ins ssa.Instruction) bool {
+				call, ok := ins.(*ssa.Call)
+				if !ok {
+					return false
+				}
+				if bi, isB := call.Call.Value.(*ssa.Builtin); !isB || bi.Name() != "append" {
+					return false
+				}
+				sl, isSl := call.Type().Underlying().(*types.Slice)
+				if !isSl {
+					return false
+				}
+				nm, isNm := sl.Elem().(*types.Named)
+				return isNm && nm.Obj().Name() == "OutPoint"
+			}
+			nCb++
+			bad = l.MustPassPerIteration(p, isOutPointAppend)
+			c.Check("C02-R3", "every-coinbase-output-swept-for-spenders", l.Header.Instrs[0].Pos(), bad == "",
+				"the rollback records only some outputs of a detached coinbase (e.g. only those that are wallet credits) for the removal of their unconfirmed spenders: a transaction spending one of the others stays in the store, with its credits in the balance, although the coinbase it depends on no longer exists ("+bad+")")
 		}
+		c.Floor("C02-R3", "coinbase output loops in rollback", nCb, 1)
 		checkPerIteration(c, "C02-R3", rb, "var:heightsToRemove", "deleteBlockRecord", 1, "a disconnected block keeps its block record")
 		checkPerIteration(c, "C02-R3", rb, "call:fetchUnminedInputSpendTxHashes", "removeConflict", 1,
 			"an unconfirmed spender of a removed coinbase output survives", nilEdgeOf("existsRawUnmined"))
